@@ -86,7 +86,10 @@ class C03(Check):
             fam = [m for m in fam if m.name in expr.F0_QUICK] + expr.generate(seed, 3)
         else:
             fam += expr.generate(seed, 30)
-        return [deriv_unit(s) for s in fam]
+        us = [deriv_unit(s) for s in fam]
+        for u, s in zip(us, fam):
+            u.optional = s.name.startswith("gen")
+        return us
 
 
 CHECK = C03()
